@@ -267,6 +267,27 @@ func ParseSpsPpsFromSeqHeader(payload []byte) (sps, pps []byte, err error) {
 	return
 }
 
+// ParseSpsPpsListFromSeqHeader
+//
+// 从AVCC格式的Seq Header中得到所有的SPS和PPS（AVCDecoderConfigurationRecord中可以有多个SPS、多个PPS）
+//
+// @param payload: rtmp message的payload部分或者flv tag的payload部分
+//
+// @return spsList, ppsList: 内存块为内部独立新申请
+func ParseSpsPpsListFromSeqHeader(payload []byte) (spsList, ppsList [][]byte, err error) {
+	sl, pl, e := parseSpsPpsListFromSeqHeaderWithoutMalloc(payload)
+	if e != nil {
+		return nil, nil, e
+	}
+	for _, item := range sl {
+		spsList = append(spsList, append([]byte(nil), item...))
+	}
+	for _, item := range pl {
+		ppsList = append(ppsList, append([]byte(nil), item...))
+	}
+	return
+}
+
 // BuildSpsPps2Annexb
 //
 // 根据sps pps构建payload
